@@ -452,7 +452,9 @@ def run_case(case):
     cat = make_catalogue(sc)
     try:
         A = irbuild.build(g, spec, r).ir
-        B0 = irbuild.build(g, spec, None, use_how=False).ir
+        # independent construction: plain top-down route, edges inserted in the
+        # opposite order (deep_eq must not depend on insertion / iteration order)
+        B0 = irbuild.build(g, spec, None, use_how=False, reverse_edges=True).ir
         buf = io.BytesIO()
         A.save_protobuf_file(buf)
         L = g.IR.load_protobuf_file(io.BytesIO(buf.getvalue()))
@@ -497,7 +499,7 @@ def run_case(case):
         name = pert["p"].split(":")[0]
         res.tag("pert:" + name)
         try:
-            Bp = irbuild.build(g, new_spec, None, use_how=bool(pert.get("route"))).ir
+            Bp = irbuild.build(g, new_spec, None, use_how=bool(pert.get("route")), reverse_edges=bool(pert.get("k", 0) % 2)).ir
             if post == "version":
                 Bp.version = Bp.version + 1 + pert.get("k", 0) % 3
         except pbt.CaseTimeout:
